@@ -7,6 +7,7 @@ import (
 	"github.com/DataDog/datadog-traceroute/result"
 	"math/rand/v2"
 	"strings"
+	"time"
 
 	"verifharness/codec"
 	"verifharness/sim"
@@ -79,7 +80,7 @@ type c10 struct{}
 
 func init() { register(c10{}) }
 
-const c10Grid = 76
+const c10Grid = 80
 
 // c10Dial names the grid slots 64..67: no seam fault, the kernel-side connect of the SACK variant fails or
 // the handshake is useless (real loopback listener / policy route of the private namespace).
@@ -89,7 +90,7 @@ func (c10) ID() string     { return "C10" }
 func (c10) Level() string  { return "fault_enumeration" }
 func (c10) QuickRuns() int { return c10Grid * 7200 }
 func (c10) Rule() string {
-	return "fault grid: for each seeded base run (every variant, 1-6 TTLs, seeded topology and timing) 64 slots are executed with one injected fault each: handle construction fails; 1st/2nd SetPacketFilter fails; k-th WriteTo fails (k=1..8); k-th Read fails fatally (k=1..20), returns a spurious deadline-exceeded (k=1..10) or zero bytes (k=1..10); k-th SetReadDeadline fails (k=1..8); plus 5 slots with 2-3 seeded faults, plus 3 slots in which Sink.Close, Source.Close or both report an error (each handle must still be closed exactly once), plus 5 slots in which the k-th write (k=2..6) blocks for a seeded while and then fails (the receiver keeps accepting replies meanwhile), plus 4 slots in which the SACK variant's real TCP connect fails or is useless (port closed, ENETUNREACH by policy route, SYN-ACK never captured, no SACK-permitted): an error, no result, handles closed exactly once. Run index i = base*64 + slot, so every slot of every base is covered systematically; non-trivial = the fault actually fired (k within the calls the run makes); distinct = distinct (variant, operation, k, class, base shape)"
+	return "fault grid: for each seeded base run (every variant, 1-6 TTLs, seeded topology and timing) the slots of the grid are executed with one injected fault each: handle construction fails; 1st/2nd SetPacketFilter fails; k-th WriteTo fails (k=1..8); k-th Read fails fatally (k=1..20), returns a spurious deadline-exceeded (k=1..10) or zero bytes (k=1..10); k-th SetReadDeadline fails (k=1..8); plus 5 slots with 2-3 seeded faults, plus 3 slots in which Sink.Close, Source.Close or both report an error (each handle must still be closed exactly once), plus 5 slots in which the k-th write (k=2..6) blocks for a seeded while and then fails (the receiver keeps accepting replies meanwhile), plus 4 slots in which the caller cancels the run (before its first operation, at a seeded instant while it runs, and together with a failing read: handles closed exactly once, none used after its Close, no goroutine left), plus 4 slots in which the SACK variant's real TCP connect fails or is useless (port closed, ENETUNREACH by policy route, SYN-ACK never captured, no SACK-permitted): an error, no result, handles closed exactly once. Run index i = base*80 + slot, so every slot of every base is covered systematically; non-trivial = the fault actually fired (k within the calls the run makes); distinct = distinct (variant, operation, k, class, base shape)"
 }
 func (c10) Assumptions() []string {
 	return []string{"faults are injected at the Source/Sink seam and at handle construction; of the three real kernel calls only TCP connect is made to fail (closed port, unreachable policy route); UDP connect and TCP listen are not fault-injected", "a spurious deadline-exceeded or zero-length read may either fail the run or be skipped; anything else (partial path, success with a wrong path) is a violation"}
@@ -100,6 +101,12 @@ func c10Fault(slot int, rng *rand.Rand, timeoutMs int) []sim.Fault {
 		return []sim.Fault{{Actor: "c0", Op: op, K: k, Class: class}}
 	}
 	switch {
+	case slot >= 76:
+		// the caller cancels (slots 76-79, instant set by the generator); the last slot adds a failing read
+		if slot == 79 {
+			return f("read", between(rng, 1, 6), "fatal")
+		}
+		return nil
 	case slot == 0:
 		return f("new", 1, "fatal")
 	case slot <= 2:
@@ -191,6 +198,21 @@ func (c10) Gen(rng0 *rand.Rand, tier string, i int) *sim.Scenario {
 		}
 	}
 	sc.Note = fmt.Sprintf("base=%d slot=%d", base, slot)
+	if slot >= 76 {
+		// "on every path": the caller's cancellation is one more way for a run to end. Before the first
+		// operation, or at a seeded instant while probes are out and the receiver is reading.
+		crng := rand.New(rand.NewPCG(uint64(i), 7))
+		c := &sc.Calls[0]
+		span := c.TimeoutMs*1000 + (c.MaxTTL-c.MinTTL+1)*c.DelayMs*1000
+		if wr.v.Entry == "tcp" {
+			span = (c.MaxTTL - c.MinTTL + 1) * c.TimeoutMs * 1000
+		}
+		c.CancelAtUs = int64(between(crng, 1, max(span, 2)))
+		if slot == 76 {
+			c.CancelAtUs = int64(pick(crng, 1, 1, 50, 999))
+		}
+		sc.Note += " cancel=1"
+	}
 	return sc
 }
 
@@ -199,6 +221,10 @@ func (c10) Check(out *sim.Outcome, ri *RunInfo) []Violation {
 	cs := out.W.Calls[0]
 	variant := (Variant{Entry: cs.C.Entry, V6: strings.Contains(cs.C.Target, ":"), Paris: cs.C.Paris, Loosen: cs.C.Loosen}).String()
 	fired := out.W.Fired
+	if noteField(out.Sc.Note, "cancel") != "" && cs.CancelledAt > 0 && cs.CancelledAt < cs.EndAt {
+		ri.NonTrivial = true
+		ri.probe("cell:" + variant + "/cancelled-while-running")
+	}
 	if len(fired) > 0 {
 		ri.NonTrivial = true
 		for _, f := range fired {
@@ -277,7 +303,9 @@ func (c10) Check(out *sim.Outcome, ri *RunInfo) []Violation {
 		case cs.Err != nil:
 			if len(fired) == 0 {
 				var ns *sack.NotSupportedError
-				if !errors.As(cs.Err, &ns) {
+				if noteField(out.Sc.Note, "cancel") != "" && cs.CancelledAt > 0 {
+					ri.probe("cancelled-run-failed")
+				} else if !errors.As(cs.Err, &ns) {
 					vs = append(vs, Violation{Rule: "C10.cause-lost", Detail: fmt.Sprintf("no fault fired, yet the run failed: %v", cs.Err), Facts: facts("variant", variant, "op", "none", "class", "none")})
 				}
 			} else {
@@ -425,6 +453,18 @@ func (c15) Gen(rng *rand.Rand, tier string, i int) *sim.Scenario {
 		// end-to-end probes, while runs are in flight, during enrichment): an error or the full counts
 		span := int64(c.TimeoutMs)*1000 + int64(c.E2E)*300000
 		c.CancelAtUs = int64(pick(rng, 1, between(rng, 1, 2000), between(rng, 1, int(span)), between(rng, 1, int(span))))
+		if len(sc.Listeners) == 0 && (c.PublicIP || chance(rng, 0.5)) {
+			// ... while the public-IP look-up is still going on (providers that stall or fail one after
+			// the other): the look-up fails because the caller left. The same request is executed a
+			// second time without public-IP collection; collecting it must not turn success into failure.
+			c.PublicIP = true
+			sc.HTTP = nil
+			for p := 0; p < 5; p++ {
+				sc.HTTP = append(sc.HTTP, sim.HTTPPlan{Provider: p, Script: []string{pick(rng, "stallBeforeHeaders", "stallAfterHeaders", "stallBeforeHeaders", fmt.Sprintf("status:%d:x", clientStatus(rng)), "status:200:garbage")}})
+			}
+			sc.Note = "publicip="
+			sc.Twin = "no-publicip"
+		}
 	}
 	return sc
 }
@@ -505,6 +545,7 @@ func (c15) Check(out *sim.Outcome, ri *RunInfo) []Violation {
 				vs = append(vs, Violation{Rule: "C15.count", Detail: fmt.Sprintf("request cancelled at %dus returned success with %d RTT samples, %d requested", c.CancelAtUs, n, c.E2E), Facts: facts("protocol", proto, "what", "rtts-after-cancel")})
 			}
 		}
+		vs = append(vs, c15Twin(out, ri, callErr, viaHTTP, proto)...)
 		return vs
 	}
 	if len(out.Sc.HTTP) > 0 {
@@ -571,6 +612,54 @@ func (c15) Check(out *sim.Outcome, ri *RunInfo) []Violation {
 	return vs
 }
 
+// c15Twin is the metamorphic rule for "failing to determine the public IP never fails the request"
+// when the caller leaves while the look-up is under way: the same request, same seed, same
+// cancellation instant, executed without public-IP collection, succeeded; then the request with the
+// look-up must not fail. The two executions are comparable when every decision the code can take on
+// the caller's context falls on the same side of the cancellation in both: the cancellation lands
+// before the last run or probe of either execution ends (what follows the runs sees a cancelled
+// context in both) and coincides with no other event (nothing depends on a tie-break).
+func c15Twin(out *sim.Outcome, ri *RunInfo, callErr error, viaHTTP bool, proto string) []Violation {
+	tw := out.Twin
+	if tw == nil || tw.W == nil || len(tw.W.Calls) == 0 || out.Sc.Twin != "no-publicip" {
+		return nil
+	}
+	ri.probe("twin.executed")
+	cs, tcs := out.W.Calls[0], tw.W.Calls[0]
+	if callErr == nil {
+		return nil
+	}
+	ri.probe("twin.request-with-look-up-failed")
+	twinOK := tcs.Finished && tcs.Panic == "" && tw.Deadlock == "" && tcs.Err == nil && tcs.Results != nil
+	if viaHTTP {
+		twinOK = tcs.Finished && tcs.Panic == "" && tw.Deadlock == "" && tcs.HTTPStatus == 200
+	}
+	if !twinOK {
+		return nil
+	}
+	at := time.Duration(cs.C.CancelAtUs) * time.Microsecond
+	lastClose := func(w *sim.World) time.Duration {
+		var last time.Duration
+		for _, ep := range w.Eps {
+			if ep.SrcClosed == 0 {
+				return 0
+			}
+			last = max(last, ep.SrcClosedAt)
+		}
+		return last
+	}
+	if len(out.W.Eps) == 0 || len(out.W.Eps) != len(tw.W.Eps) || lastClose(out.W) <= at || lastClose(tw.W) <= at {
+		ri.probe("twin.not-comparable:cancelled-after-the-runs")
+		return nil
+	}
+	if !out.W.Log.TieFree(at) || !tw.W.Log.TieFree(at) {
+		ri.probe("twin.not-comparable:tie")
+		return nil
+	}
+	ri.probe("twin.compared")
+	return []Violation{{Rule: "C15.publicip-fatal", Detail: fmt.Sprintf("request cancelled at %v while the public-IP look-up was under way failed (%v); the same request without public-IP collection, cancelled at the same instant, succeeded with all %d runs and %d samples: the look-up's failure failed the request", at, callErr, cs.C.Queries, cs.C.E2E), Facts: facts("protocol", proto, "what", "twin")}}
+}
+
 // ---------------------------------------------------------------------------------------------
 // C20
 
@@ -627,7 +716,14 @@ func (c20) Gen(rng *rand.Rand, tier string, i int) *sim.Scenario {
 	if capb == "unreach" {
 		c.Target, c.Listener, c.Port = unreachTarget, 0, 33434
 	}
-	sc := &sim.Scenario{Property: "C20", Calls: []sim.Call{c}, Listeners: []sim.Listener{lis}, Note: fmt.Sprintf("method=%q cap=%s fault=%s e2e=%d", method, capb, fault, e2e)}
+	spelled := ""
+	if srng := rand.New(rand.NewPCG(uint64(i), 20)); chance(srng, 0.04) {
+		// another spelling of the protocol name: the request may be refused outright (nothing opened,
+		// nothing sent) or executed, and then the method policy holds for it as for "tcp"
+		c.Protocol = pick(srng, "TCP", "Tcp", "tCP")
+		spelled = " spelling=" + c.Protocol
+	}
+	sc := &sim.Scenario{Property: "C20", Calls: []sim.Call{c}, Listeners: []sim.Listener{lis}, Note: fmt.Sprintf("method=%q cap=%s fault=%s e2e=%d", method, capb, fault, e2e) + spelled}
 	dest := between(rng, 1, c.MaxTTL)
 	wo := &wireOpts{silentProb: 0.2, wellTimed: true}
 	mk := func(fi int, actor string, v Variant, minTTL int, plain bool) {
@@ -743,6 +839,13 @@ func (c20) Check(out *sim.Outcome, ri *RunInfo) []Violation {
 	accepted := 0
 	for _, li := range out.W.Listeners() {
 		accepted += li.Accepted
+	}
+	if sp := noteField(out.Sc.Note, "spelling"); sp != "" {
+		if cs.Err != nil && len(out.W.Eps) == 0 && len(out.W.FailedNew) == 0 && accepted == 0 {
+			ri.probe("spelling.refused")
+			return vs
+		}
+		ri.probe("spelling.executed")
 	}
 	// e2e probes: SYN only, no connection
 	if ackProbes["e2e"] > 0 {
